@@ -190,6 +190,10 @@ func (s *scanSpec) world() *WorldSpec {
 	}
 	if s.ExitDelay != "" {
 		argv = append(argv, "--exit-delay", s.ExitDelay)
+	} else {
+		// always explicit: the oracles compare with the configured delay, never with the
+		// implementation's default value
+		argv = append(argv, "--exit-delay", "300ms")
 	}
 	if s.Rate != "" {
 		argv = append(argv, "--rate", s.Rate)
